@@ -662,10 +662,12 @@ class Ctx:
         return self._check(*(self.forall_instances() + [B(claim)]))
 
 
-def explore(fn, stats=None, max_paths=20000, timeout_ms=60000, seed=0, deadline=None):
-    """DFS over decision vectors. Yields (ctx, result_or_exception) per feasible path."""
+def explore(fn, stats=None, max_paths=20000, timeout_ms=60000, seed=0, deadline=None, root=None):
+    """DFS over decision vectors. Yields (ctx, result_or_exception) per feasible path.
+    root: a decision prefix [(take, False), ...]; only the subtree below it is explored (work partitioning)."""
     stats = stats if stats is not None else {}
-    prefix = []
+    root = [(bool(t), False) for t, _p in (root or [])]
+    prefix = list(root)
     n = 0
     while True:
         c = Ctx(prefix, stats, timeout_ms=timeout_ms, seed=seed)
@@ -685,9 +687,9 @@ def explore(fn, stats=None, max_paths=20000, timeout_ms=60000, seed=0, deadline=
             yield c, r
         d = c.decisions
         k = len(d) - 1
-        while k >= 0 and not d[k][1]:
+        while k >= len(root) and not d[k][1]:
             k -= 1
-        if k < 0:
+        if k < len(root):
             return
         if n >= max_paths or (deadline is not None and time.time() > deadline):
             stats["path_cap_hit"] = True
